@@ -23,7 +23,7 @@ CHECKS = {
  'C18': dict(
    engine='kani', category='proof', design_ref='DESIGN.md §2 C18',
    technique='contract harnesses on the real WaitableOperation/CabiTask (Kani/CBMC, loop-free, symbolic host answers), inductive per operation over the abstract state space',
-   text='Each public operation of WaitableOperation (poll, re-poll, delivery, cancel, drop, cross-task move) is checked from every reachable abstract state against a ledger-keeping mock task with fully symbolic start/delivered/cancel codes and both task ABI versions: registered exactly once while pending, removed from every task before cancel/drop, completion processed exactly once, no registration survives the value.',
+   text='Each public operation of WaitableOperation (poll, re-poll, delivery, cancel, drop, cross-task move) is checked from every reachable abstract state against a ledger-keeping mock task with fully symbolic start/delivered/cancel codes and both task ABI versions: registered exactly once while pending, removed from every task before cancel/drop, completion processed exactly once, no registration survives the value; after every step a representation invariant holds (an entry in a task\'s ledger points at this operation\'s completion slot, the operation\'s own record names that task as registered, and the waitable is a member of exactly that task\'s set).',
    note='Trusted: mock host/task (what the ABI permits), abstract WaitableOp (concrete ops are C19-C21), Kani/CBMC, x86-64 vs wasm32. SharedTaskState::waitable_register/unregister are covered under C22.'),
  'C19': dict(
    engine='kani', category='other', design_ref='DESIGN.md §2 C19',
@@ -33,7 +33,7 @@ CHECKS = {
  'C24': dict(
    engine='kani', category='proof', design_ref='DESIGN.md §2 C24',
    technique='contract harnesses (Kani/CBMC) on cabi_realloc extracted verbatim each run, allocator replaced by GlobalAlloc-contract stubs with a ghost ledger; real Cleanup driven in place',
-   text='PARTIAL. Proved for all four usize arguments (loop-free, unbounded): cabi_realloc returns a non-null pointer aligned as requested, returns the alignment value itself for a zero-sized fresh allocation, calls the allocator only inside the GlobalAlloc contract (never zero size, realloc only with the layout the block was allocated with) and aborts instead of returning null. BOUNDED stand-ins, not counted as proved: contents preserved up to the smaller size (blocks of 1..=8 bytes on Kani\'s allocator model); Cleanup::new is null with no guard exactly when the size is zero, its block is freed exactly once with the same layout, forget does not free (layout size <= 6 because of the poison loop).',
+   text='PARTIAL. Proved for all four usize arguments (loop-free, unbounded): cabi_realloc returns a non-null pointer aligned as requested, returns the alignment value itself for a zero-sized fresh allocation, calls the allocator only inside the GlobalAlloc contract (never zero size, realloc only with the layout the block was allocated with) and aborts instead of returning null. BOUNDED stand-ins, not counted as proved: contents preserved up to the smaller size (blocks of 1..=8 bytes on Kani\'s allocator model); Cleanup::new is null with no guard exactly when the size is zero, its block is freed exactly once with the same layout, forget does not free, and a failed allocation of non-zero size aborts instead of returning null (layout size <= 6 because of the poison loop).',
    note='Per-request contract; a request sequence is a composition of calls each of which meets its precondition because the previous result met its postcondition. Assumed host precondition (the code states it as a debug_assert): a live block is never resized to zero. Also proved (all pointer/size/alignment values): the cabi_dealloc runtime item and the post-return functions, as the real Rust generator emits them for a string/list<u8> probe world, free nothing for a zero size and otherwise exactly the named block once with its own size and alignment. Not covered: the wit_bindgen_cabi_realloc.rs C-symbol forwarder. Trusted: the global allocator honours GlobalAlloc; 64-bit usize stands in for wasm32. The contract-form counterexample is not replayed natively (allocator stubs are not applied by concrete playback); the contents/Cleanup ones are.'),
  'C20': dict(
    engine='kani', category='proof', design_ref='DESIGN.md §2 C20',
@@ -61,13 +61,13 @@ CHECKS['C14'] = dict(
 CHECKS['C23'] = dict(
    engine='kani', category='proof', design_ref='DESIGN.md §2 C23',
    technique='contract harnesses on the real inter-task wakeup operations and the executor steps around them (Kani/CBMC, in-crate, one operation per harness from every reachable abstract state, complete enumeration of sleep states), representation invariant checked after every operation',
-   text='Per operation, from every reachable abstract state (no stream / stream idle / read pending; POLLING / WOKEN / SLEEPING): going to sleep starts exactly one wakeup read on a stream created at most once and joined to the task\'s own set; a wake writes exactly one item when the task is SLEEPING and nothing when POLLING or already WOKEN (repeats coalesced), any other state is rejected; the wakeup event is consumed by the runtime exactly for its own stream and the task is polled again; a pending read is cancelled exactly once, after leaving the waitable set, before the next poll and before the task is destroyed; the flag stream_reading always equals "the host has a pending read".',
+   text='Per operation, from every reachable abstract state (no stream / stream idle / read pending; POLLING / WOKEN / SLEEPING): going to sleep starts exactly one wakeup read on a stream created at most once and joined to the task\'s own set; a wake writes exactly one item when the task is SLEEPING and nothing when POLLING or already WOKEN (repeats coalesced), any other state is rejected; the wakeup event is consumed by the runtime exactly for its own stream and the task is polled again; a pending read is cancelled exactly once, after leaving the waitable set, before the next poll and before the task is destroyed; the flag stream_reading always equals "the host has a pending read", the task is marked SLEEPING only while a read is pending, and a callback answering YIELD leaves it not sleeping (a wake then writes nothing).',
    note='The host delivering the stream event after the write is assumed (mock). Feature inter-task-wakeup. Under the model checker the task\'s waitable map is the two-slot finite map of hook 6328f56. Trusted: mock host, Kani/CBMC, x86-64 vs wasm32.')
 
 CHECKS['C07'] = dict(
    engine='kani', category='proof', design_ref='DESIGN.md §9.6 C07',
    technique='contract harnesses (Kani/CBMC, loop-free, all handle values) on the bindings the real Rust generator produces for a resource probe world, against a ledger-keeping mock host attached through the generated native import stand-ins',
-   text='PARTIAL (one probe world, see level_note). For every handle value: the generated Resource<T> item drops an owned handle exactly once with its Rust value and never uses or drops a handle that was given away; generated import glue transfers an owned argument exactly once without dropping it, never drops a borrowed argument or method receiver, and an owned result (function or constructor) is dropped exactly once when its value is dropped; generated export glue hands the user the owned handle (dropped exactly once with its value), transfers the handle of a newly created exported resource without dropping it, reaches the same Rust value through an owned handle and through a borrow, and destroys it exactly once in the destructor export.',
+   text='PARTIAL (one probe world, see level_note). For every handle value: the generated Resource<T> item drops an owned handle exactly once with its Rust value and never uses or drops a handle that was given away; generated import glue transfers an owned argument exactly once without dropping it, never drops a borrowed argument or method receiver, and an owned result (function or constructor) is dropped exactly once when its value is dropped; generated export glue hands the user the owned handle (dropped exactly once with its value), transfers the handle of a newly created exported resource without dropping it, reaches the same Rust value through an owned handle and through a borrow, and destroys it exactly once in the destructor export, also after into_inner moved the value out (then the new owner destroys it, not the destructor); a list of one or two owned handles passed to an import transfers every handle and drops none (bounded by the list length).',
    note='Proof for the generated code of kani/rustgen_res/probe.wit only (the generator is real and rebuilt each run; the world is fixed): not a statement about every world. Not covered: async, handles nested in aggregates, future/stream/error-context handles, host resource tables. Rule R1 (native import stand-ins call the mock host) is the only edit to generated text. 64-bit target: trampolines that take a borrow as core i32 are bypassed (pointer truncation).')
 
 CHECKS['C22'] = dict(
